@@ -45,6 +45,7 @@ def setup(rep, tier):
     rep.minimum('R05.8', 1)
     rep.minimum('R05.9', 1)
     rep.minimum('R05.10', 5)
+    rep.minimum('R05.11', 5)
 
 
 def local_key(f, name):
@@ -912,7 +913,194 @@ def r05_10(rep, prog):
     return n
 
 
+# ------------------------------------------------------------------ R05.11
+CELT_ENC_DISPATCH = {'celt_encoder_ctl': 'opus_custom_encoder_ctl', 'opus_custom_encoder_ctl': 'opus_custom_encoder_ctl'}
+SET_BITRATE = 4002
+
+
+def _accepted_by_arm(prog, dname, req):
+    """values of the request argument with which the handler arm gets past its validation (state before the first store)"""
+    from .. import ctl
+    f = prog.fn(dname)
+    cf, arms = ctl.switch_arms(f)
+    for arm in arms:
+        if any(l.get('case') and l['case'][0] <= req <= l['case'][1] for l in arm.labels):
+            lid, ty = arm.value_local()
+            if lid is None:
+                return None, arm
+            an = absint.Analyzer(prog, f)
+            acc = absint.BOT
+            for b, i, n in arm.find(lambda n: n[0] in ('assign', 'cassign')):
+                st = an.state_before_node(b, i, n)
+                if st is not None:
+                    acc = absint.join(acc, an.ev(['local', 'value', lid], st))
+                    break
+            return acc, arm
+    return None, None
+
+
+def _last_of_comma(e):
+    e = sx.strip(e)
+    while sx.kind(e) == 'comma' or (sx.kind(e) == 'bin' and e[1] == ','):
+        e = sx.strip(e[-1] if sx.kind(e) == 'comma' else e[3])
+    return e
+
+
+def _vetted_field(prog, site_fn, fld_key, fld_rec, refuse_max):
+    """(ok, text): the field is vetted by an early-out in a caller: a chain of branch conditions, evaluated for every
+    frame rate 1..400 with the field at the largest refused value, leaves only through exits that cannot reach a call
+    leading to site_fn; the chain dominates those calls and no store to the field is reachable after it"""
+    reach_site = {site_fn.name}
+    changed = True
+    while changed:
+        changed = False
+        for g in prog.functions_all:
+            if g.name not in reach_site and any(sx.callee_name(c) in reach_site for c in g.calls()):
+                reach_site.add(g.name)
+                changed = True
+    for g in prog.functions_all:
+        if g.name not in reach_site or g.name == site_fn.name:
+            continue
+        cf = cfgm.CFG(g)
+        for b in cf.blocks:
+            c = cf.cond(b)
+            if c is None:
+                continue
+            atoms = [x for x in sx.walk(c) if sx.kind(x) == 'bin' and x[1] in ('<', '<=') and sx.key(sx.strip(x[2])) == fld_key]
+            if not atoms:
+                continue
+            # head of the if-chain
+            h = b
+            while not cf.blocks[h]['stmts'] and len(cf.pred[h]) == 1 and cf.cond(cf.pred[h][0]) is not None:
+                h = cf.pred[h][0]
+            chain = set()
+            work = [h]
+            while work:
+                x = work.pop()
+                if x in chain:
+                    continue
+                chain.add(x)
+                for s_ in cf.succ[x]:
+                    if cf.cond(s_) is not None and not cf.blocks[s_]['stmts'] and len(cf.pred[s_]) == 1:
+                        work.append(s_)
+            # every occurrence of the field in the chain is `field < e` / `field <= e`  (monotone: the largest refused value is the worst case)
+            mono = True
+            rate_keys = set()
+            for x in chain:
+                cx = cf.cond(x)
+                for n in sx.walk(cx):
+                    if sx.key(n) == fld_key and not any(n is sx.strip(a[2]) for a in sx.walk(cx) if sx.kind(a) == 'bin' and a[1] in ('<', '<=')):
+                        mono = False
+                    if sx.kind(n) == 'local' and n[1] == 'frame_rate':
+                        rate_keys.add(sx.key(n))
+            if not mono or len(rate_keys) != 1:
+                continue
+            rk = list(rate_keys)[0]
+            calls = [bb for bb in cf.blocks for st_ in cf.blocks[bb]['stmts'] for n in sx.walk(st_) if sx.kind(n) == 'call' and sx.callee_name(n) in reach_site]
+            if not calls or not all(cf.dominates(h, cb) for cb in calls):
+                continue
+            bad = None
+            exits_ok = set()
+            for r in range(1, 401):
+                val = {fld_key: refuse_max, rk: r}
+                seen, work = set(), [h]
+                while work:
+                    x = work.pop()
+                    if x in seen:
+                        continue
+                    seen.add(x)
+                    if x not in chain:
+                        continue
+                    v = decide.ev3(cf.cond(x), val)
+                    for s_, pol in cf.edges(x):
+                        if v is not None and pol is not None and bool(v) != pol:
+                            continue
+                        work.append(s_)
+                for e in seen - chain:
+                    if e in exits_ok:
+                        continue
+                    if any(cb == e or cb in cf.reachable_from(e) for cb in calls):
+                        bad = (r, e)
+                        break
+                    exits_ok.add(e)
+                if bad:
+                    break
+            if bad:
+                continue
+            # stores to the field after the chain (here or anywhere else in the program outside init-time code)
+            after = set()
+            for x in chain:
+                for s_ in cf.succ[x]:
+                    if s_ not in chain:
+                        after |= {s_} | cf.reachable_from(s_)
+            late = [sx.line(n) for bb in after for st_ in cf.blocks[bb]['stmts'] for n in sx.walk(st_)
+                    if n[0] in ('assign', 'cassign', 'inc') and sx.key(sx.strip_paren(n[1] if n[0] == 'assign' else (n[2] if n[0] == 'cassign' else n[3]))) == fld_key]
+            if late:
+                continue
+            other = []
+            for g2 in prog.functions_all:
+                if g2.name == g.name or 'init' in g2.name:
+                    continue                              # creation-time stores precede every encode call
+                for n in g2.all_nodes():
+                    if n[0] in ('assign', 'cassign', 'inc'):
+                        lv = sx.strip_paren(n[1] if n[0] == 'assign' else (n[2] if n[0] == 'cassign' else n[3]))
+                        if sx.kind(lv) == 'field' and (lv[2], lv[3]) == fld_rec:
+                            other.append('%s:%s' % (g2.name, sx.line(n)))
+            if other:
+                continue
+            return True, 'early-out at %s:%s (`%s` ...) is taken for every frame rate 1..400 when the field is <= %d; it dominates the %d call(s) leading here and the field is not stored afterwards' % (
+                g.file, cf.blocks[b].get('term', {}).get('l'), sx.show(cf.cond(b))[:50], refuse_max, len(calls))
+    return False, None
+
+
+def r05_11(rep, prog):
+    """The Opus layer sets the CELT rate to OPUS_BITRATE_MAX at the start of every frame and overrides it on the VBR arms
+    with a request whose result it discards.  A refused override leaves MAX in force and the VBR frame then fills the
+    whole buffer (hundreds of kb/s for a request of a few kb/s).  So every non-constant rate handed to the CELT encoder
+    with the result discarded must lie inside the set the CELT handler accepts: by a clamp visible at the call site
+    (interval analysis), or because the value is the encoder's resolved rate and a caller's early-out keeps small rates
+    away from the frame encoder (checked, see _vetted_field)."""
+    acc, arm = _accepted_by_arm(prog, 'opus_custom_encoder_ctl', SET_BITRATE)
+    if acc is None or acc == absint.BOT:
+        raise AnalysisBroken('R05.11: cannot determine the accepted set of the CELT OPUS_SET_BITRATE handler')
+    # largest refused value below the accepted positive range
+    pos = [p_ for p_ in acc if p_[1] > 0]
+    refuse_max = pos[0][0] - 1 if pos else None
+    for f in prog.functions_all:
+        if not f.file.startswith('src/'):
+            continue
+        an = None
+        for b, blk in f.blocks.items():
+            for i, s_ in enumerate(blk['stmts']):
+                if sx.kind(s_) != 'call' or sx.callee_name(s_) not in CELT_ENC_DISPATCH or len(s_[2]) < 3 or not sx.is_int(sx.strip(s_[2][1]), SET_BITRATE):
+                    continue
+                e = _last_of_comma(s_[2][2])
+                e0 = sx.nocast(e) if hasattr(sx, 'nocast') else e
+                inst = '%s:%s hands the CELT encoder a rate it accepts: `%s`' % (prog.config, f.name, sx.show(e0)[:60])
+                where = '%s:%s' % (f.file, sx.line(s_))
+                rep.functions.add(f.name)
+                if an is None:
+                    an = absint.Analyzer(prog, f)
+                st = an.state_before_node(b, i, s_)
+                if st is None:
+                    rep.holds('R05.11', inst, where, 'unreachable in this configuration')
+                    continue
+                v = absint.meet(an.ev(e, st), absint.type_range(32, True))     # the argument is an opus_int32 (no signed overflow assumed)
+                if absint.meet(v, acc) == v:
+                    rep.holds('R05.11', inst, where, 'value %s inside the accepted set %s' % (absint.show(v), absint.show(acc)))
+                    continue
+                root = sx.strip(e0)
+                if sx.kind(root) == 'field' and refuse_max is not None:
+                    ok, txt = _vetted_field(prog, f, sx.key(root), (root[2], root[3]), refuse_max)
+                    if ok:
+                        rep.holds('R05.11', inst, where, txt)
+                        continue
+                rep.violated('R05.11', inst, where, 'value %s is not inside the accepted set %s and the result is discarded: a refused request leaves OPUS_BITRATE_MAX in force for a VBR frame' % (absint.show(v), absint.show(acc)),
+                             key='%s:celt-rate-refused:%s' % (f.name, sx.show(e0)[:40].replace(' ', '')))
+
+
 def check(rep, prog, tier):
+    r05_11(rep, prog)
     r05_10(rep, prog)
     r05_9(rep, prog)
     r05_8(rep, prog)
